@@ -192,3 +192,105 @@ def engine_ring(tier, seed):
         cache_put(key, slim)
     res['divergences_total'] = len(res['divergences'])
     return res
+
+
+# --------------------------------------------------------------------------- case-list engines
+
+def extract_cases(log, out_path, marker='CASE'):
+    """Lines `<<"CASE", "<json>">>` printed by TLC -> one JSON document per line."""
+    from edges2paths import parse_tla_string
+    n = 0
+    seen = set()
+    with open(out_path, 'w') as out:
+        for line in open(log, errors='replace'):
+            if line.startswith('<<"%s"' % marker):
+                _, i = parse_tla_string(line, line.index('"'))
+                i = line.index('"', i)
+                body, _ = parse_tla_string(line, i)
+                if body in seen:
+                    continue
+                seen.add(body)
+                out.write(body + '\n')
+                n += 1
+    return n
+
+
+def engine_cases(engine, module, cfg_text, binary_name, tier, seed, extra_args=(), model=None, timeout=1800,
+                 cfg_name=None):
+    """TLC checks `module` with `cfg_text` (its invariants are the contract) and
+    prints one CASE line per enumerated case; the harness binary replays every
+    case against the implementation."""
+    key = '%s-%s-%s-%d' % (engine, tier, tree_hash(), seed)
+    cached = cache_get(key)
+    if cached:
+        cached['cached'] = True
+        return cached
+    t0 = time.time()
+    res = {'engine': engine, 'tier': tier, 'tlc': [], 'replays': [], 'divergences': [], 'errors': [], 'samples': [],
+           'cached': False}
+    bindir = build_harness()
+    binary = os.path.join(bindir, binary_name)
+    name = cfg_name or engine
+    cfg = write_cfg(name, cfg_text)
+    r = run_tlc(name, module, cfg, timeout=timeout)
+    r['purpose'] = 'contract invariants + enumeration of the cases replayed against the implementation'
+    res['tlc'].append(r)
+    if not r['ok']:
+        res['errors'].append('TLC %s: %s' % (r['name'], r['violated'] or r['error'] or 'failed'))
+        return res
+    rdir = os.path.join(BUILD, 'replay', name)
+    os.makedirs(rdir, exist_ok=True)
+    cases = os.path.join(rdir, 'cases.jsonl')
+    n = extract_cases(r['log'], cases)
+    if n == 0:
+        res['errors'].append('%s: TLC enumerated no cases' % name)
+        return res
+    recs, sums, crashes = replay_parallel(binary, ['--cases', cases] + list(extra_args), n, os.path.join(rdir, 'out'))
+    first = {}
+    for rec in recs:
+        first.setdefault(rec['path'], rec)
+    all_cases = None
+    for cr in crashes:
+        if all_cases is None:
+            all_cases = [json.loads(l) for l in open(cases)]
+        if 0 <= cr['path'] < len(all_cases):
+            first.setdefault(cr['path'], {'path': cr['path'], 'step': 0, 'tag': None,
+                                          'field': 'process crashed / hung (rc %s)' % cr['rc'], 'expected': None,
+                                          'observed': cr['stderr'][-300:], 'case': all_cases[cr['path']]})
+        else:
+            res['errors'].append('replay %s crashed outside a case: %s' % (name, cr))
+    for pidx, rec in sorted(first.items()):
+        rec = dict(rec, model=model or module)
+        res['divergences'].append(rec)
+    res['replays'].append({'model': model or module, 'variant': 'base', 'paths': n, 'steps': sum(s['steps'] for s in sums),
+                           'spec_states': r['distinct'], 'spec_transitions': r['generated'],
+                           'transitions_covered_by_paths': r['generated'] if not crashes else None,
+                           'diverged_paths': len(first), 'crashes': len(crashes)})
+    lines = open(cases).read().splitlines()
+    for i in (0, len(lines) // 2, len(lines) - 1):
+        res['samples'].append({'model': model or module, 'case': json.loads(lines[i])})
+    res['wall_s'] = round(time.time() - t0, 1)
+    res['divergences_total'] = len(res['divergences'])
+    if not res['errors']:
+        slim = dict(res)
+        slim['divergences'] = res['divergences'][:200]
+        cache_put(key, slim)
+    return res
+
+
+BUILD_CFG = """SPECIFICATION Spec
+INVARIANTS
+    AllOrNothing
+    ReleasedOnce
+    OutcomeByKernel
+    GrantedSizes
+    ExportCase
+CHECK_DEADLOCK FALSE
+"""
+
+
+def engine_build(tier, seed):
+    res = engine_cases('build', 'MC_Build', BUILD_CFG, 'replay_build', tier, seed, model='Build')
+    for d in res['divergences']:
+        d['tag'] = 'C18'
+    return res
